@@ -69,7 +69,7 @@ var c04Seq = []string{
 	"F.I = 1", "F.I = F.I2", "F.I2 = F.I", "F.I += F.I2", "F.I8 = F.I", "F.F = F.I / 4", `F.S = F.S + "x"`, "F.S += F.I",
 	"F.Arr[0] = F.Arr[1]", "F.Arr[1] = F.Arr[0]", "F.Arr[F.K] = 5", "F.K = 1", `F.M["a"] = F.M["b"]`, `F.M["b"] = F.I`,
 	"F.P.V = F.I", "F.I = F.P.V", "F.P = F.P.Q", "F.P.V = 3", "J.n = J.o.n", "J.o.n = F.I", "N = N + F.I", "F.I = N",
-	`Name = Name + "y"`, "F.B = !F.B", "F.B = F.I > 1", "F.U = F.I", "F.I -= 1", "F.I *= 2", "F.In = F.Arr[F.K]", `F.KS = "b"`, "F.I2 = F.M[F.KS]",
+	`Name = Name + "y"`, "N = F.I", "N = F.Arr[0]", "Name = F.S", "F.I2 = N", "F.S = Name", "N = F.P.V", "F.B = !F.B", "F.B = F.I > 1", "F.U = F.I", "F.I -= 1", "F.I *= 2", "F.In = F.Arr[F.K]", `F.KS = "b"`, "F.I2 = F.M[F.KS]",
 }
 
 func judgeC04(unjudged *int64) func(c *Case, tr *hx.Trace, w *ref.World) []Verdict {
